@@ -3469,8 +3469,7 @@ let finish_unstaking s a v =
 let unstake_one s a =
   match get_val s a with
   | Some v ->
-    if (||) (negb (N.eqb v.v_status (Npos XH)))
-         (Z.ltb v.v_tokens s.pp.p_min_stake)
+    if negb (N.eqb v.v_status (Npos XH))
     then Some s
     else finish_unstaking s a v
   | None -> Some s
